@@ -8,3 +8,7 @@ class OneOfDoesNotHaveResultError(BaseDagError):
 
 class RecurrentSubgraphDoesNotHaveResultError(BaseDagError):
     pass
+
+
+class SwitchDoesNotHaveCaseError(BaseDagError):
+    pass
